@@ -250,6 +250,13 @@ def run(plan):
                                             get_async_client=cloud.client_factory()))
         if not check_requests():
             return
+        if plan.get("hard_fault") and o.kind == "exc":
+            # an HTTP failure / API error on one of the cloud calls surfaces as a cloud error (or the run completes
+            # with every device properly authenticated - never with a device silently left unauthenticated)
+            if not isinstance(o.exc, w.ns.cloud.CloudError):
+                res.fail(f"discover(auto_connect=True) raised {o.exc_type}", f"after a cloud fault: {o.exc!r}")
+            w.fire("cloud_fault_during_auto_connect")
+            return
         if o.kind != "ok":
             res.fail(f"discover(auto_connect=True) raised {o.exc_type}", repr(o.exc))
             return
@@ -393,6 +400,13 @@ def space(tier):
         if p["twice"]:
             p.pop("faults", None)
         p["silent_on_bad_token"] = rng.random() < 0.3
+        if not p["twice"] and rng.random() < 0.25:
+            # a one-off hard fault (HTTP 5xx / 4xx, API error, transport exception) on the k-th cloud request
+            k = rng.choice([0, 1, 2, 2, 2, 3])
+            p["faults"] = [None] * k + [rng.choice([["http", 500], ["http", 503], ["http", 404], ["api", 3004], ["api", 3102],
+                                                    ["exc", "ConnectError"], ["exc", "RemoteProtocolError"]])]
+            p["hard_fault"] = True
+            p["ndev"] = 1
         return p
     sp.add("e2e", 1500 if tier == "quick" else 150_000, e2e)
 
